@@ -137,6 +137,7 @@ def minmax_call(fold, e, field):
 def run(ctx):
     _run_main(ctx)
     policy_fields_parsed_from_their_attributes(ctx)
+    every_group_policy_reaches_the_fold(ctx)
 
 
 def _run_main(ctx):
@@ -443,3 +444,31 @@ def policy_fields_parsed_from_their_attributes(ctx):
         "allow_primary_cred_fallback": {"AllowPrimaryCredFallback"}})],
         "the resolved policy is then the strictest combination of the wrong settings")
     ctx.floor("K5-policy-fields", "policy fields traced to their attributes", n, 8)
+
+
+# ---------------------------------------------------------------------------------------------------------------------
+# "All of its groups' policies": load_account_policy must hand fold_from the policies of the groups in the account's
+# transitive membership (memberof), not only the direct ones, and nothing between the search and the fold may drop a policy
+# other than the Option<AccountPolicy> conversion itself.
+
+def every_group_policy_reaches_the_fold(ctx):
+    from .lib.x_fields import expr_sources
+    R_ = "K5-policy-source"
+    fn = ctx.fn(LIB, "kanidmd_lib::idm::group::load_account_policy")
+    folds = calls_in(fn["body"], "ResolvedAccountPolicy::fold_from")
+    if not ctx.check(len(folds) == 1 and len(folds[0].get("args", [])) == 1, R_, fn["fn"], "folds-once", "one call of fold_from",
+                     f"load_account_policy calls fold_from {len(folds)} times (shape not understood)", file=fn["file"], line=fn["line"]):
+        return
+    srcs = {x for x in expr_sources(fn["body"], folds[0]["args"][0]) if x.startswith("attr:")}
+    ctx.check("attr:MemberOf" in srcs and "attr:DirectMemberOf" not in srcs, R_, fn["fn"], "groups-from:MemberOf",
+              f"policy groups selected through {sorted(srcs)}",
+              f"the groups whose policies are folded are selected through {sorted(srcs)}, not through the account's memberof: policies of groups the account "
+              "belongs to only through another group are dropped and the resolved policy is weaker than one of its groups' policies",
+              file=fn["file"], line=folds[0].get("line"))
+    # between the search result and the fold only the AccountPolicy conversion may drop elements
+    arg = folds[0]["args"][0]
+    bad = [c for c in all_calls(arg, into_closures=False) if c.get("e") == "mcall" and c.get("name") in
+           ("filter", "take", "skip", "take_while", "skip_while", "step_by", "nth", "last", "next", "find", "rev_take")]
+    ctx.check(not bad, R_, fn["fn"], "no-shrinking-adapter", "no filter/take/skip between the search and the fold",
+              f"the iterator handed to fold_from is shortened by {[c.get('name') for c in bad]} — some group policies never reach the fold",
+              file=fn["file"], line=folds[0].get("line"))
